@@ -189,4 +189,59 @@ SetOpOK(t, sg, sgs) ==
       [] t = "inter" -> (sg < 0) <=> (\A k \in DOMAIN sgs : sgs[k] < 0)
       [] t = "sub"   -> (sg < 0) <=> (sgs[1] < 0 /\ sgs[2] > 0)       \* the open difference: on the cutter's surface the result is not negative
       [] OTHER -> TRUE
+
+(* ---------------------- skeleton samples (round 5) ------------------------ *)
+(* A skeleton sample is a point a user constructs ON the shape's skeleton:    *)
+(*   m = [part, a, b, tn, o]  :  P = a + (tn/td) (b - a) + o                  *)
+(* a, b, o integer vectors in lattice units (real = integer / den * 2^e2),    *)
+(* td the denominator of the t ladder of the line (1..12), 0 <= tn <= td.     *)
+(* The exact point is rational; td * P is an integer vector, and the shape    *)
+(* scaled by td (Scale) is judged there with the integer operators above.     *)
+(* int32 budget: td <= 12, q <= 64, |logged F| <= SkBound (checked BEFORE any *)
+(* squaring), samples within 25 lattice units of the surface, coordinates of  *)
+(* a, b, o and of the shape <= 16 lattice units; rounded cylinders only on    *)
+(* the axis / mid-plane region (the corner branch of ClsCyl squares L).       *)
+VScale(k, v) == <<k * v[1], k * v[2], k * v[3]>>
+RECURSIVE Scale(_, _)
+Scale(s, k) ==
+    CASE s.t = "sphere" -> [s EXCEPT !.c = VScale(k, @), !.r = k * @]
+      [] s.t = "box"    -> [s EXCEPT !.c = VScale(k, @), !.b = VScale(k, @)]
+      [] s.t = "rbox"   -> [s EXCEPT !.c = VScale(k, @), !.b = VScale(k, @), !.r = k * @]
+      [] s.t = "line"   -> [s EXCEPT !.a = VScale(k, @), !.b = VScale(k, @), !.r = k * @]
+      [] s.t = "rcone"  -> [s EXCEPT !.a = VScale(k, @), !.b = VScale(k, @), !.r1 = k * @, !.r2 = k * @]
+      [] s.t = "rcyl"   -> [s EXCEPT !.c = VScale(k, @), !.ra = k * @, !.rb = k * @, !.h = k * @]
+      [] s.t = "plane"  -> [s EXCEPT !.c = VScale(k, @), !.h = k * @]
+      [] s.t = "tr"     -> [s EXCEPT !.ss = <<Scale(@[1], k)>>, !.o = VScale(k, @)]
+      [] OTHER          -> [s EXCEPT !.ss = [i \in DOMAIN @ |-> Scale(@[i], k)]]
+
+SkBound == 1600
+\* td * P
+SkPoint(m, td) == VAdd(VAdd(VScale(td, m.a), VScale(m.tn, VSub(m.b, m.a))), VScale(td, m.o))
+SkCls(s, m, td) == Cls(Scale(s, td), SkPoint(m, td))
+
+\* closed-form distance at a skeleton sample, in LATTICE units (same record as Ref).
+\* capsule: structural - a point of the core moved by o perpendicular to the axis is at distance |o| from the
+\*   core (no td-scaled squares needed; SdfSkel checks this reading against ClsLine on the scaled integers);
+\* sphere, box, plane: Ref of the scaled shape at td*P, rescaled.
+RECURSIVE SkRef(_, _, _)
+SkRef(s, m, td) ==
+    CASE s.t = "tr" -> SkRef(s.ss[1], [m EXCEPT !.a = VSub(@, s.o), !.b = VSub(@, s.o)], td)
+      [] s.t = "line" ->
+            LET ba == VSub(s.b, s.a) IN
+            IF {m.a, m.b} \subseteq {s.a, s.b} /\ m.tn \in 0..td /\ (Len2(ba) = 0 \/ Dot(m.o, ba) = 0)
+            THEN Sq(Len2(m.o), 1, s.r) ELSE NoRef
+      [] s.t \in {"sphere", "box", "plane"} ->
+            LET e == Ref(Scale(s, td), SkPoint(m, td)) IN
+            IF e.kind = "lin" THEN Lin(e.n, e.d * td) ELSE Sq(e.n, e.d * td * td, e.r \div td)
+      [] OTHER -> NoRef
+
+SkRefAgreesWithCls(s, m, td) ==
+    LET e == SkRef(s, m, td) IN
+    CASE e.kind = "sq" -> Sgn(e.n - e.d * e.r * e.r) = SkCls(s, m, td)
+      [] e.kind = "lin" -> Sgn(e.n) = SkCls(s, m, td)
+      [] OTHER -> TRUE
+
+\* |F1 - F2| <= q |p1 - p2| + 1 with |p1 - p2|^2 = dp2 / td^2   (callers guarantee |F| <= SkBound)
+SkLipOK(F1, F2, q, td, dp2) ==
+    LET D == Abs(F1 - F2) IN D <= 1 \/ (D - 1) * (D - 1) * td * td <= q * q * dp2
 =============================================================================
